@@ -255,3 +255,118 @@ Section Observer.
       split; reflexivity.
   Qed.
 End Observer.
+
+(* ---------- C15: a fault (exception or KeyboardInterrupt) in the update at step p ---------- *)
+Section Fault.
+  Variable Tm : Type.
+  Variable t0 : Tm.
+  Variable tadd : Tm -> Tm -> Tm.
+  Variable tleb : Tm -> Tm -> bool.
+  Variable St Rec : Type.
+  Variable updf : nat -> Tm -> Tm -> St -> Tm * St * Rec.
+  Variable k : nat.
+  Variable dt0 : Tm.
+  Variable v0 : St.
+  Variable p : nat.                       (* the update call that fails *)
+  Variable kbd : bool.                    (* true: KeyboardInterrupt, false: exception *)
+
+  Definition upd_fault : nat -> Tm -> Tm -> St -> outcome Tm St Rec :=
+    fun i t d v => if Nat.eqb i p then (if kbd then Kbd Tm St Rec else Err Tm St Rec)
+                   else upd_ok Tm St Rec updf i t d v.
+
+  Notation Tq := (T Tm t0 tadd St Rec updf dt0 v0).
+  Notation Dq := (D Tm t0 tadd St Rec updf dt0 v0).
+  Notation Vq := (V Tm t0 tadd St Rec updf dt0 v0).
+  Notation Bq := (Bf Tm t0 tadd St Rec updf k dt0 v0).
+  Notation specq := (spec_frames Tm t0 tadd St Rec updf k dt0 v0).
+  Notation canonq := (canon Tm t0 tadd St Rec updf k dt0 v0).
+
+  Lemma stage_fault (save : bool) (end_time : Tm) : forall m i F fuel,
+    i + m = p ->
+    (forall j, i <= j <= p -> tleb end_time (Tq j) = false) ->
+    m < fuel ->
+    stage Tm tadd tleb St Rec upd_fault k true fuel save end_time i (canonq i F) =
+    let s := mkR Tm St Rec (Tq p) (Dq p) (Vq p)
+                 (if Nat.eqb (p mod k) 0 then [] else Bq p)
+                 (F ++ if save then specq i (S m) else []) in
+    if kbd then (Cancelled, final_save Tm St Rec k save p s) else (Raised, s).
+  Proof.
+    induction m as [|m IH]; intros i F fuel Hp Hlt Hf.
+    - destruct fuel as [|fuel]; [lia|]. rewrite Nat.add_0_r in Hp. subst i.
+      assert (Hi : tleb end_time (Tq p) = false) by (apply Hlt; lia).
+      cbn [stage]. unfold spec_frames. cbn [seq flat_map]. rewrite app_nil_r.
+      destruct (Nat.eqb (p mod k) 0) eqn:E; unfold canon; cbn [r_time r_dt r_vals r_buf r_frames];
+        rewrite Hi; cbn [andb]; unfold upd_fault at 1; rewrite Nat.eqb_refl;
+        unfold save_frame; cbn [r_time r_dt r_vals r_buf r_frames];
+        destruct kbd, save; try rewrite app_nil_r; reflexivity.
+    - destruct fuel as [|fuel]; [lia|].
+      assert (Hi : tleb end_time (Tq i) = false) by (apply Hlt; lia).
+      assert (Hne : Nat.eqb i p = false) by (apply Nat.eqb_neq; lia).
+      cbn [stage].
+      destruct (Nat.eqb (i mod k) 0) eqn:E; unfold canon; cbn [r_time r_dt r_vals r_buf r_frames];
+        rewrite Hi; cbn [andb negb]; unfold upd_fault at 1; rewrite Hne; unfold upd_ok at 1;
+        cbn [fst snd r_time r_dt r_vals r_buf r_frames].
+      + replace ([] ++ [snd (updf i (Tq i) (Dq i) (Vq i))]) with (Bq (S i))
+          by (cbn [Bf]; rewrite E; reflexivity).
+        set (F' := save_frame Tm St Rec save i (mkR Tm St Rec (Tq i) (Dq i) (Vq i) (Bq i) F) (Bq i) (Vq i)).
+        match goal with |- _ = ?rhs =>
+          change (stage Tm tadd tleb St Rec upd_fault k true fuel save end_time (S i) (canonq (S i) F') = rhs) end.
+        rewrite (IH (S i) F' fuel); [|lia|intros j Hj; apply Hlt; lia|lia].
+        cbv zeta. unfold F', save_frame. cbn [r_time r_dt r_vals r_buf r_frames].
+        unfold spec_frames. cbn [seq flat_map]. rewrite E.
+        destruct save; rewrite ?app_nil_r, <- ?app_assoc; reflexivity.
+      + replace (Bq i ++ [snd (updf i (Tq i) (Dq i) (Vq i))]) with (Bq (S i))
+          by (cbn [Bf]; rewrite E; reflexivity).
+        match goal with |- _ = ?rhs =>
+          change (stage Tm tadd tleb St Rec upd_fault k true fuel save end_time (S i) (canonq (S i) F) = rhs) end.
+        rewrite (IH (S i) F fuel); [|lia|intros j Hj; apply Hlt; lia|lia].
+        cbv zeta. unfold spec_frames. cbn [seq flat_map]. rewrite E. reflexivity.
+  Qed.
+End Fault.
+
+Section FaultThm.
+  Variable Tm : Type.
+  Variable t0 : Tm.
+  Variable tadd : Tm -> Tm -> Tm.
+  Variable tleb : Tm -> Tm -> bool.
+  Variable St Rec : Type.
+  Variable updf : nat -> Tm -> Tm -> St -> Tm * St * Rec.
+  Variable k : nat.
+  Variable dt0 : Tm.
+  Variable v0 : St.
+
+  (* an exception in update call p: the file holds exactly the frames recorded before it
+     (labels 0, k, 2k, ... <= p), each complete *)
+  Theorem frames_prefix_on_error (end_time : Tm) (p fuel : nat) :
+    (forall j, j <= p -> tleb end_time (T Tm t0 tadd St Rec updf dt0 v0 j) = false) -> p < fuel ->
+    let res := stage Tm tadd tleb St Rec (upd_fault Tm St Rec updf p false) k true fuel true end_time 0
+                     (mkR Tm St Rec t0 dt0 v0 [] []) in
+    fst res = Raised /\
+    r_frames _ _ _ (snd res) = spec_frames Tm t0 tadd St Rec updf k dt0 v0 0 (S p).
+  Proof.
+    intros Hlt Hf res. unfold res.
+    change (mkR Tm St Rec t0 dt0 v0 [] []) with (canon Tm t0 tadd St Rec updf k dt0 v0 0 []).
+    rewrite (stage_fault Tm t0 tadd tleb St Rec updf k dt0 v0 p false true end_time p 0 [] fuel);
+      [|reflexivity|intros j Hj; apply Hlt; lia|exact Hf].
+    cbv zeta. split; reflexivity.
+  Qed.
+
+  (* a cancellation in update call p: the frames are exactly those of a run that ends at step p
+     (so the partial solution is a genuine solution of the shorter run) *)
+  Theorem frames_on_cancel (end_time : Tm) (p fuel : nat) :
+    (forall j, j <= p -> tleb end_time (T Tm t0 tadd St Rec updf dt0 v0 j) = false) -> p < fuel ->
+    let res := stage Tm tadd tleb St Rec (upd_fault Tm St Rec updf p true) k true fuel true end_time 0
+                     (mkR Tm St Rec t0 dt0 v0 [] []) in
+    fst res = Cancelled /\
+    r_frames _ _ _ (snd res) = run_frames Tm t0 tadd St Rec updf k dt0 v0 p.
+  Proof.
+    intros Hlt Hf res. unfold res.
+    change (mkR Tm St Rec t0 dt0 v0 [] []) with (canon Tm t0 tadd St Rec updf k dt0 v0 0 []).
+    rewrite (stage_fault Tm t0 tadd tleb St Rec updf k dt0 v0 p true true end_time p 0 [] fuel);
+      [|reflexivity|intros j Hj; apply Hlt; lia|exact Hf].
+    cbv zeta. cbn [fst snd app]. split; [reflexivity|].
+    unfold final_save, run_frames. cbn [andb].
+    destruct (Nat.eqb (p mod k) 0) eqn:E; cbn [negb r_frames]; [rewrite app_nil_r; reflexivity|].
+    unfold save_frame. cbn [r_time r_dt r_vals r_buf r_frames]. unfold frame_of. reflexivity.
+  Qed.
+End FaultThm.
